@@ -22,6 +22,7 @@ pub struct HistCase {
     pub warnings: bool,
 }
 
+const EDIT_TEXT: &[&str] = &["DATA 7, \"x\", 8", "REM edited", "PRINT \"e\"", "DATA \"only\"", "Q = Q + 1", "READ Q, V"];
 const IMMEDIATE: &[&str] = &[
     "Q = 5", "V = 1 : W = 2", "C$ = \"old\"", "K$ = \"left over\"", "VV(3) = 9", "WW(1,2) = 4", "VV$(2) = \"cell\"", "C(5) = 1", "DIM VV(20)", "DIM WW(3,3)",
     "DIM YY(2,2,2)", "DIM Q(9)", "FOR C = 1 TO 5", "FOR J = 9 TO 1 STEP -1", "FOR K = 1 TO 2 : FOR Y = 1 TO 2", "NEXT C", "READ Q", "READ Q, V, W", "READ C$",
@@ -31,6 +32,9 @@ const IMMEDIATE: &[&str] = &[
 
 fn history(targets: Vec<u64>) -> impl Strategy<Value = Vec<Intent>> {
     let t1 = targets.clone();
+    let t3 = targets.clone();
+    let t4 = targets.clone();
+    let t5 = targets.clone();
     let t2 = targets;
     let pool = reply_pool();
     let intent = prop_oneof![
@@ -43,6 +47,10 @@ fn history(targets: Vec<u64>) -> impl Strategy<Value = Vec<Intent>> {
         3 => Just(Intent::Break),
         4 => (0..pool.len()).prop_map(move |i| Intent::Reply(pool[i].to_string())),
         1 => any::<u64>().prop_map(Intent::Seed),
+        // edits of the program: delete a line, replace it, add one (the fresh side gets the final listing)
+        1 => (0..t3.len().max(1)).prop_map(move |i| Intent::Line(format!("{}", t3.get(i).copied().unwrap_or(0)))),
+        1 => (0..t4.len().max(1), 0..EDIT_TEXT.len()).prop_map(move |(i, k)| Intent::Line(format!("{} {}", t4.get(i).copied().unwrap_or(0), EDIT_TEXT[k]))),
+        1 => (0..t5.len().max(1), 0..EDIT_TEXT.len()).prop_map(move |(i, k)| Intent::Line(format!("{} {}", t5.get(i).copied().unwrap_or(0) + 1, EDIT_TEXT[k]))),
     ];
     prop::collection::vec(intent, 0..40)
 }
@@ -138,12 +146,17 @@ fn check(c: &HistCase, rec: &mut CaseRec) -> Verdict {
         || !before.functions.is_empty()
         || before.has_breakpoint
         || before.pending_input;
-    // fresh interpreter holding the same program, same option flags
+    // fresh interpreter holding the same program (the history may have edited it: take the
+    // listing as it is now), same option flags
+    let final_lines: Vec<String> = match used.list() {
+        Ok(l) => l.into_iter().map(|l| l.trim_end_matches('\n').to_string()).collect(),
+        Err(Crash(p)) => return Verdict::fail("panic", format!("LIST: {}", p)),
+    };
     let mut fresh = Sess::new();
     fresh.set_options(used.interp.enable_warnings, used.interp.enable_tracing);
     used.warnings = used.interp.enable_warnings;
     used.tracing = used.interp.enable_tracing;
-    match fresh.enter_program(&lines) {
+    match fresh.enter_program(&final_lines) {
         Ok(Ok(())) => {}
         Ok(Err(e)) => return Verdict::fail("fresh-rejects-program", show(e.text)),
         Err(Crash(p)) => return Verdict::fail("panic-fresh", show(p)),
